@@ -57,6 +57,7 @@ func C02_PrimaryNeverIssues() {
 	o := twoFAOpts()
 	pickFactors(&o)
 	f := newFlow(o)
+	f.thoroughAxes()
 	route := primaryRoutes[verif.Choice("route", len(primaryRoutes))]
 	v := symbolicValues()
 	_, panicked, _ := f.serve(route, v, nil)
@@ -78,6 +79,7 @@ func C02_SecondFactorStep() {
 	verif.ReplayInInterpreter()
 	o := twoFAOpts()
 	f := newFlow(o)
+	f.thoroughAxes()
 	sms := verif.Choice("kind", 2) == 1
 	route := "POST /2fa/totp/validate"
 	if sms {
